@@ -92,8 +92,8 @@ class Gen {
       [0.5, () => `${this.recvForReplace()}.replace(/⟦|x/g, ${sub()})`],
       [0.5, () => `[...[${sub()}, ${this.atom()}]].join(${this.atom()})`],
       [0.4, () => `(${this.atom()} in w.o${this.id()} ? ${sub()} : ${sub()})`],
-      [0.4, () => `String(${sub()}).length + ${sub()}`],
-      [0.4, () => `(2 ** w.i${this.id()}) + ${sub()} + (w.i${this.id()} | 1)`],
+      [0.4, () => this.P(`String(${sub()}).length + ${sub()}`)],
+      [0.4, () => this.P(`(2 ** w.i${this.id()}) + ${sub()} + (w.i${this.id()} | 1)`)],
       [strs.length ? 0.8 : 0, () => `(${r.pick(strs).name} ${r.pick(['||=', '??=', '&&='])} ${sub()})`],
       [0.5, () => inFn(() => `(function () { return arguments[0] + arguments.length })(${sub()}, 1)`)],
       [0.5, () => inFn(() => `(({ k${this.id()} = ${sub()} }) => k${this.n})({})`)]
